@@ -334,6 +334,11 @@ impl ReadBackend for Overlay {
     fn read_full(&self, tpe: FileType, id: &Id) -> RusticResult<Bytes> {
         match self.get(tpe, id) {
             Some(b) => Ok(b),
+            // the config file is stored under a fixed name: whatever id is asked for, it is THE config
+            None if tpe == FileType::Config => match self.inner.list(tpe)?.first() {
+                Some(cur) => self.inner.read_full(tpe, cur),
+                None => self.inner.read_full(tpe, id),
+            },
             None => self.inner.read_full(tpe, id),
         }
     }
@@ -351,6 +356,12 @@ impl WriteBackend for Overlay {
         Ok(())
     }
     fn write_bytes(&self, tpe: FileType, id: &Id, c: bool, content: BytesList) -> RusticResult<()> {
+        if tpe == FileType::Config {
+            // real backends store the config under a fixed name: a new config replaces the old one
+            for old in self.inner.list(tpe)? {
+                self.inner.remove(tpe, &old, c)?;
+            }
+        }
         self.inner.write_bytes(tpe, id, c, content)
     }
     fn remove(&self, tpe: FileType, id: &Id, c: bool) -> RusticResult<()> {
@@ -397,6 +408,7 @@ fn scan_store(be: &dyn ReadBackend, m: &Markers, stage: &str, out: &mut Vec<Stri
 
 #[derive(Clone, Debug)]
 struct BlobLoc {
+    tree: bool,
     id: String,
     off: u32,
     len: u32,
@@ -413,6 +425,71 @@ fn outcome<T: PartialEq>(r: Result<T, String>, base: &T) -> (String, String) {
 
 fn catch<T>(f: impl FnOnce() -> Result<T, String>) -> Result<T, String> {
     std::panic::catch_unwind(std::panic::AssertUnwindSafe(f)).unwrap_or_else(|_| Err("panic".to_string()))
+}
+
+/// Every read path that consumes index / snapshot files as a whole (not by id), run on a handle
+/// with a history (opened, then a config change of an unrelated option): listing snapshots,
+/// latest, by id prefix, check, prune_plan, to_indexed_ids, to_indexed.
+/// Ok(canonical result) or Err(what failed) per path.
+fn loader_paths(
+    obe: &Arc<dyn WriteBackend>,
+    key: &MasterKey,
+    blobs: &[(bool, Id)],
+    prefixes: &[String],
+) -> Vec<(String, Result<String, String>)> {
+    let es = |e: Box<RusticError>| format!("{}:{}", hk::classify(&e), e.to_string().lines().nth(3).unwrap_or("").chars().take(120).collect::<String>());
+    let open = || -> Result<RepoOpen, String> {
+        let mut h = open_repo(obe.clone(), None, key, &repo_opts()).map_err(|e| format!("open:{e}"))?;
+        let v = !h.config().extra_verify();
+        let _ = h.apply_config(&ConfigOptions::default().set_extra_verify(v)).map_err(|e| format!("apply_config:{e}"))?;
+        Ok(h)
+    };
+    let mut out: Vec<(String, Result<String, String>)> = Vec::new();
+    let mut h = match open() {
+        Ok(h) => h,
+        Err(e) => return vec![("open".to_string(), Err(e))],
+    };
+    out.push(("get_all_snapshots".to_string(), catch(|| {
+        h.get_all_snapshots().map_err(es).map(|mut v| {
+            v.sort_by_key(|s| s.id);
+            v.iter().map(|s| serde_json::to_string(s).unwrap_or_default()).collect::<Vec<_>>().join("|")
+        })
+    })));
+    out.push(("latest".to_string(), catch(|| h.get_snapshot_from_str("latest", |_| true).map_err(es).map(|s| s.id.to_hex().to_string()))));
+    for p in prefixes {
+        out.push((format!("snapshot-by-prefix:{p}"), catch(|| {
+            h.get_snapshot_from_str(p, |_| true).map_err(es).map(|s| serde_json::to_string(&s).unwrap_or_default())
+        })));
+    }
+    out.push(("check".to_string(), catch(|| match h.check(rustic_core::CheckOptions::default()) {
+        Ok(r) if r.is_ok().is_ok() => Ok("clean".to_string()),
+        Ok(_) => Err("check reports errors".to_string()),
+        Err(e) => Err(es(e)),
+    })));
+    let popts = PruneOptions::default();
+    out.push(("prune_plan".to_string(), catch(|| h.prune_plan(&popts).map_err(es).map(|p| format!("{:?}", p.stats)))));
+    let has = |n: usize| format!("has={n}/{}", blobs.len());
+    match catch(move || h.to_indexed_ids().map_err(es)) {
+        Ok(hi) => {
+            out.push(("to_indexed_ids".to_string(), Ok(has(blobs.iter().filter(|(t, id)| hk::index_has(&hi, *t, id)).count()))));
+            h = hi.drop_index();
+        }
+        Err(e) => {
+            out.push(("to_indexed_ids".to_string(), Err(e)));
+            h = match open() {
+                Ok(h) => h,
+                Err(e) => {
+                    out.push(("reopen".to_string(), Err(e)));
+                    return out;
+                }
+            };
+        }
+    }
+    match catch(move || h.to_indexed().map_err(es)) {
+        Ok(hi) => out.push(("to_indexed".to_string(), Ok(has(blobs.iter().filter(|(t, id)| hk::index_has(&hi, *t, id)).count())))),
+        Err(e) => out.push(("to_indexed".to_string(), Err(e))),
+    }
+    out
 }
 
 fn case_e2e(t: &mut Toks) -> anyhow::Result<String> {
@@ -460,7 +537,9 @@ fn case_e2e(t: &mut Toks) -> anyhow::Result<String> {
     if compress != "d" {
         cfg = cfg.set_compression(compress.parse::<i32>()?);
     }
-    let (repo, key) = init_repo(store.clone(), None, &cfg, &repo_opts())?;
+    let ov = Overlay::new(store.clone());
+    let obe: Arc<dyn WriteBackend> = ov.clone();
+    let (repo, key) = init_repo(obe.clone(), None, &cfg, &repo_opts())?;
     let kb = master_bytes(&key);
     let mut scan = Vec::new();
     let mut scanned = 0usize;
@@ -470,8 +549,12 @@ fn case_e2e(t: &mut Toks) -> anyhow::Result<String> {
     // second backup: one file changed, one added
     std::fs::write(src.path().join(&dname).join("added.txt"), format!("SECRET-CONTENT-{seed}-added;").repeat(30))?;
     markers.strings.push(format!("SECRET-CONTENT-{seed}-added;").into_bytes());
-    let (repo, _snap2) = backup_dir(repo, src.path(), "src", None)?;
+    let (mut repo, _snap2) = backup_dir(repo, src.path(), "src", None)?;
     scan_store(&*store, &markers, "backup2", &mut scan, &mut scanned);
+    // a config change of an unrelated option on the SAME handle (it keeps being used below)
+    let changed = repo.apply_config(&ConfigOptions::default().set_min_packsize_tolerate_percent(31u32))?;
+    anyhow::ensure!(changed, "apply_config did not change the config");
+    scan_store(&*store, &markers, "apply-config", &mut scan, &mut scanned);
     let pw = format!("pw-{seed}");
     let _kid = repo.add_key(&pw, &KeyOptions::default())?;
     scan_store(&*store, &markers, "key-add", &mut scan, &mut scanned);
@@ -489,7 +572,8 @@ fn case_e2e(t: &mut Toks) -> anyhow::Result<String> {
     let (repo, _snap3) = backup_dir(repo, src.path(), "src", None)?;
     scan_store(&*store, &markers, "backup3", &mut scan, &mut scanned);
     let clean = check_clean(&repo)?;
-    drop(repo);
+    // `hist`: the handle with a history (backups, apply_config, add_key, forget, prune)
+    let hist = repo;
     let _ = res.insert("check_clean_before_tamper".into(), clean.into());
     let _ = res.insert("files_scanned".into(), scanned.into());
     let _ = res.insert("scan_violations".into(), scan.clone().into());
@@ -500,21 +584,20 @@ fn case_e2e(t: &mut Toks) -> anyhow::Result<String> {
     let _ = res.insert("key_files_are_json".into(), keys_json.into());
 
     // --- tamper matrix
-    let ov = Overlay::new(store.clone());
-    let obe: Arc<dyn WriteBackend> = ov.clone();
     // the reads of snapshot and index files go through the PUBLIC API of a repository opened over
     // the overlay (Repository::cat_file -> the DecryptBackend configured by open_raw); the config
     // file and pack contents through the hooks
     let rp = open_repo(obe.clone(), None, &key, &repo_opts())?;
-    let api_read = |tpe: FileType, id: &Id| -> Result<Vec<u8>, String> {
+    let api_read_on = |h: &RepoOpen, tpe: FileType, id: &Id| -> Result<Vec<u8>, String> {
         if tpe == FileType::Config {
             hk::read_encrypted_full(obe.clone(), &kb, tpe, id).map_err(|e| format!("{}:{}", e.0, e.1))
         } else {
-            rp.cat_file(tpe, id.to_hex().as_str())
+            h.cat_file(tpe, id.to_hex().as_str())
                 .map(|b| b.to_vec())
                 .map_err(|e| format!("{}:{}", hk::classify(&e), e.to_string().replace('\n', " ")))
         }
     };
+    let api_read = |tpe: FileType, id: &Id| api_read_on(&rp, tpe, id);
     let mut by: BTreeMap<String, usize> = BTreeMap::new();
     let mut viol: Vec<serde_json::Value> = Vec::new();
     let mut count = |k: String| *by.entry(k).or_insert(0) += 1;
@@ -535,6 +618,7 @@ fn case_e2e(t: &mut Toks) -> anyhow::Result<String> {
                 let e = packs.entry(pid).or_default();
                 for b in p["blobs"].as_array().unwrap() {
                     e.push(BlobLoc {
+                        tree: b["type"].as_str() == Some("tree"),
                         id: b["id"].as_str().unwrap().to_string(),
                         off: b["offset"].as_u64().unwrap() as u32,
                         len: b["length"].as_u64().unwrap() as u32,
@@ -564,8 +648,18 @@ fn case_e2e(t: &mut Toks) -> anyhow::Result<String> {
         }
         p
     };
+    // every read path that consumes index / snapshot files as a whole: baseline on the untampered store
+    let all_blobs: Vec<(bool, Id)> = packs.values().flatten().map(|b| (b.tree, Id::from_hex(&b.id).unwrap())).collect();
+    let prefixes: Vec<String> = files.iter().filter(|f| f.0 == FileType::Snapshot).map(|f| f.1.to_hex().as_str()[..10].to_string()).collect();
+    let loader_base: BTreeMap<String, String> = loader_paths(&obe, &key, &all_blobs, &prefixes)
+        .into_iter()
+        .map(|(n, r)| r.map(|v| (n.clone(), v)).map_err(|e| anyhow::anyhow!("loader baseline {n} failed: {e}")))
+        .collect::<Result<_, _>>()?;
+    let _ = res.insert("loader_paths".into(), loader_base.keys().cloned().collect::<Vec<_>>().into());
+    let mut nloader = 0usize;
     let mut nprobes = 0usize;
     for (tpe, id, orig) in &files {
+        let mut swap_done = false;
         let tname = tpe.dirname().to_string();
         // candidates for substitution: other files of the same type
         let others: Vec<&(FileType, Id, Vec<u8>)> = files.iter().filter(|f| f.0 == *tpe && f.1 != *id).collect();
@@ -591,8 +685,39 @@ fn case_e2e(t: &mut Toks) -> anyhow::Result<String> {
             let class = if pname.starts_with("swap") { "swap" } else { &pname[..1] };
             let newlen = tb.len();
             ov.set(*tpe, id, tb);
+            // loaders: index and snapshot files, boundary truncations / first+last byte flips / extension / one swap
+            let sel = match class {
+                "t" => [0, 1, 31, 32, orig.len() - 1].contains(&newlen),
+                "f" => pname.starts_with("f0.") || pname.starts_with(&format!("f{}.", orig.len() - 1)),
+                "x" => pname == "x1",
+                _ => !std::mem::replace(&mut swap_done, true),
+            };
+            if sel && matches!(*tpe, FileType::Index | FileType::Snapshot) {
+                for (name, r) in loader_paths(&obe, &key, &all_blobs, &prefixes) {
+                    nloader += 1;
+                    let o = match &r {
+                        Err(_) => "err",
+                        Ok(v) if loader_base.get(&name) == Some(v) => "same",
+                        Ok(_) => "diff",
+                    };
+                    let path = name.split(':').next().unwrap_or("").to_string();
+                    count(format!("loader/{tname}/{class}/{path}/{o}"));
+                    // a path that does not consume this file may return the same result; a path that
+                    // returns a DIFFERENT result without an error is a violation
+                    if o == "diff" {
+                        viol.push(serde_json::json!({"type": tname, "id": id.to_hex().as_str(), "probe": pname, "read": name, "outcome": "diff",
+                            "expected": loader_base.get(&name), "got": r.ok()}));
+                    }
+                }
+            }
             if let Some(base) = &base_file {
                 let (tp, i2) = (*tpe, *id);
+                // the same read on the handle with a history
+                let (oh, _) = outcome(catch(|| api_read_on(&hist, tp, &i2)), base);
+                count(format!("{tname}/{class}/history-handle/{oh}"));
+                if oh != "err" {
+                    viol.push(serde_json::json!({"type": tname, "id": id.to_hex().as_str(), "probe": pname, "read": "get_file on a handle with a history (backup, apply_config, prune)", "outcome": oh}));
+                }
                 let (o, msg) = outcome(catch(|| api_read(tp, &i2)), base);
                 count(format!("{tname}/{class}/{o}"));
                 if o == "err" {
@@ -650,6 +775,7 @@ fn case_e2e(t: &mut Toks) -> anyhow::Result<String> {
             ov.clear();
         }
     }
+    let _ = res.insert("loader_reads".into(), nloader.into());
     let _ = res.insert("files_tampered".into(), files.len().into());
     let _ = res.insert("probes".into(), nprobes.into());
     let _ = res.insert("outcomes".into(), serde_json::to_value(&by)?);
@@ -663,7 +789,11 @@ fn case_e2e(t: &mut Toks) -> anyhow::Result<String> {
         let cb = hk::read_encrypted_full(obe.clone(), &kb, FileType::Snapshot, &b.1).map_err(|e| anyhow::anyhow!(e.1))?;
         ov.set(FileType::Snapshot, &a.1, b.2.clone());
         ov.set(FileType::Snapshot, &b.1, a.2.clone());
-        let ra = api_read(FileType::Snapshot, &a.1);
+        let ra_hist = api_read_on(&hist, FileType::Snapshot, &a.1);
+        let ra = match (api_read(FileType::Snapshot, &a.1), ra_hist) {
+            (Err(e), Err(_)) => Err(e),
+            (Ok(x), _) | (_, Ok(x)) => Ok(x),      // either handle returning content is reported
+        };
         let how = match &ra {
             Ok(x) if *x == cb && ca != cb => "returns-other-content".to_string(),
             Ok(x) if *x == ca => "same".to_string(),
